@@ -296,6 +296,10 @@ class Fn:
                     and type(op) in (ast.Lt, ast.LtE, ast.Gt, ast.GtE, ast.Eq, ast.NotEq):
                 sym = {ast.Lt: "<", ast.LtE: "≤", ast.Gt: ">", ast.GtE: "≥", ast.Eq: "=", ast.NotEq: "≠"}[type(op)]
                 return f"{self.self_attr('size', a)[0]} {sym} {b.value}", None
+            # X.shape == (3, 3) for the lattice array
+            if isinstance(a, ast.Attribute) and a.attr == "shape" and isinstance(op, ast.Eq) and U(b) == "(3, 3)" and isinstance(a.value, ast.Name) \
+                    and a.value.id in self.env and self.env[a.value.id][1] == "Lat":
+                return f"({self.env[a.value.id][0]}.length = 3 ∧ {self.dim()} = 3)", None
             # radius comparisons
             if self.is_rad(a) and isinstance(op, ast.Lt) and U(b) == "0":
                 return f"pyLt0 {self.env[a.id][0]} = true", None
@@ -435,6 +439,12 @@ class Fn:
             return f"npCol0 {P(v)}", "KVec", bv
         if tv == "Intv" and s in (":, 1", "(:, 1)"):
             return f"npCol1 {P(v)}", "KVec", bv
+        # indices[self._weights[indices] != 0]   (a hit list filtered by the parent weights)
+        if tv == "Idx" and isinstance(sl, ast.Compare) and len(sl.ops) == 1 and isinstance(sl.ops[0], ast.NotEq) \
+                and U(sl.comparators[0]) in ("0", "0.0") and isinstance(sl.left, ast.Subscript) and self.is_self_attr(sl.left.value) \
+                and sl.left.value.attr in ("_weights", "weights") and U(sl.left.slice) == U(e.value):
+            w, _tw = self.self_attr(sl.left.value.attr, sl.left.value)
+            return f"npIdxNonzeroWeight {P(w)} {P(v)}", "Idx", bv
         if tv in ("Pts", "Ws") and s == ":0":
             return f"List.take 0 {P(v)}", tv, bv
         if tv in ("Pts", "Ws") and isinstance(sl, ast.Name) and sl.id in self.env:
@@ -1049,7 +1059,7 @@ class Fn:
         targets = set()
         for _, body in chain:
             b = [x for x in body if not is_doc(x)]
-            if self.is_svd_block(b):
+            if self.is_svd_block(b) or self.cross_block(b) is not None:
                 targets.add("recivecs")
                 continue
             if len(b) != 1 or not isinstance(b[0], ast.Assign) or len(b[0].targets) != 1:
@@ -1081,6 +1091,12 @@ class Fn:
                 if "reciParam" not in self.env:
                     self.bad(b[0], "SVD pseudo-inverse outside the constructor")
                 e, ty, binds = "reciParam", "Lat", []
+            elif self.cross_block(b) is not None:
+                # (round 6) reciprocal vectors of a 3 x 3 cell by cross products, the volume signed or its absolute value
+                x, tx, bx = self.expr(ast.Name(id="realvecs", ctx=ast.Load()))
+                if tx != "Lat" or bx:
+                    self.bad(b[0], "cross-product reciprocal vectors of something that is not the lattice")
+                e, ty, binds = f"npCrossReci {'true' if self.cross_block(b) else 'false'} {x}", "Lat", []
             else:
                 e, ty, binds = self.xexpr(b[0].value)
             if binds:
@@ -1119,6 +1135,25 @@ class Fn:
         "if abs(S).max() * rcond > abs(S).min():\n    raise ValueError",
         "recivecs = np.einsum('ij,j,jk', U, 1 / S, Vt)",
     ]
+
+    CROSS = [
+        "crosses = np.cross(realvecs[[1, 2, 0]], realvecs[[2, 0, 1]])",
+        None,       # volume = [abs(]np.dot(realvecs[0], crosses[0])[)]
+        "rcond = np.finfo(realvecs.dtype).eps * 3",
+        "if volume <= rcond * np.prod(np.linalg.norm(realvecs, axis=1)):\n    raise ValueError",
+        "recivecs = crosses / volume",
+    ]
+
+    def cross_block(self, b):
+        """`b_i = (a_j x a_k) / V` for a 3 x 3 cell -> True (V = abs(triple product)) / False (signed V) / None (another block)"""
+        t = [norm(x) for x in b]
+        if len(t) != 5 or any(w is not None and w != g for w, g in zip(self.CROSS, t)):
+            return None
+        if t[1] == "volume = abs(np.dot(realvecs[0], crosses[0]))":
+            return True
+        if t[1] == "volume = np.dot(realvecs[0], crosses[0])":
+            return False
+        return None
 
     def is_svd_block(self, b):
         return [norm(x) for x in b] == self.SVD
